@@ -6,6 +6,7 @@ package main
 // side of the harness), base64 is an uninterpreted inverse pair.
 
 import (
+	"fmt"
 	"go/types"
 
 	"golang.org/x/tools/go/ssa"
@@ -47,8 +48,8 @@ func (e *Exec) fillRandom(v Value, tag string) {
 	if sl.n == 0 {
 		return
 	}
-	r := e.fresh(tag, SStr)
-	e.assume(mkEq(mkLen(r), mkInt(int64(sl.n))))
+	e.freshCtr++
+	r := mkVar(fmt.Sprintf("%s!%d!L%d", sanitize(tag), e.freshCtr, sl.n), SStr)
 	arr := sl.arr.val.(*ArrayVal)
 	es := make([]Value, len(arr.elems))
 	copy(es, arr.elems)
@@ -250,6 +251,112 @@ func hashMethod(name string) opaqueMethodFn {
 		return func(e *Exec, ov *OpaqueVal, args []Value) Value { return mkInt(32) }
 	case "BlockSize":
 		return func(e *Exec, ov *OpaqueVal, args []Value) Value { return mkInt(64) }
+	}
+	return nil
+}
+
+// ---- AES / AEAD / CFB: ideal ciphers ----
+
+func (w *World) registerCipherIntrinsics() {
+	I := w.intrinsics
+	blockIface := func(e *Exec, key *Term) Value {
+		t := e.errorsPkgType("crypto/sha256", "digest") // any concrete type: only methods via opaque dispatch matter
+		return &IfaceVal{typ: types.NewPointer(t), val: &OpaqueVal{name: "aes.Block", data: key}}
+	}
+	I["crypto/aes.NewCipher"] = func(e *Exec, fn *ssa.Function, a []Value) Value {
+		key := e.bytesTerm(a[0])
+		n := mkLen(key)
+		okc := mkOr(mkEq(n, mkInt(16)), mkEq(n, mkInt(24)), mkEq(n, mkInt(32)))
+		if e.branch(okc) {
+			return tuple(blockIface(e, key), nilIface)
+		}
+		return tuple(nilIface, e.newError("crypto/aes: invalid key size"))
+	}
+	I["crypto/cipher.NewGCM"] = func(e *Exec, fn *ssa.Function, a []Value) Value {
+		blk := a[0].(*IfaceVal)
+		if blk.typ == nil {
+			e.panicHere("nil pointer dereference (nil cipher.Block)")
+		}
+		key := blk.val.(*OpaqueVal).data.(*Term)
+		t := e.errorsPkgType("crypto/sha256", "digest")
+		return tuple(&IfaceVal{typ: types.NewPointer(t), val: &OpaqueVal{name: "aead", data: key}}, nilIface)
+	}
+	stream := func(kind string) intrinsicFn {
+		return func(e *Exec, fn *ssa.Function, a []Value) Value {
+			blk := a[0].(*IfaceVal)
+			key := blk.val.(*OpaqueVal).data.(*Term)
+			iv := e.bytesTerm(a[1])
+			e.check("panic", e.panicID("cipher: IV length must equal block size"), "cipher: IV length must equal block size", mkEq(mkLen(iv), mkInt(16)))
+			t := e.errorsPkgType("crypto/sha256", "digest")
+			return &IfaceVal{typ: types.NewPointer(t), val: &OpaqueVal{name: "stream", data: []*Term{mkStr(kind), key, iv}}}
+		}
+	}
+	I["crypto/cipher.NewCFBEncrypter"] = stream("enc")
+	I["crypto/cipher.NewCFBDecrypter"] = stream("dec")
+}
+
+func cipherMethod(ov *OpaqueVal, name string) opaqueMethodFn {
+	switch ov.name {
+	case "aes.Block":
+		if name == "BlockSize" {
+			return func(e *Exec, ov *OpaqueVal, args []Value) Value { return mkInt(16) }
+		}
+	case "aead":
+		switch name {
+		case "NonceSize":
+			return func(e *Exec, ov *OpaqueVal, args []Value) Value { return mkInt(12) }
+		case "Overhead":
+			return func(e *Exec, ov *OpaqueVal, args []Value) Value { return mkInt(16) }
+		case "Seal":
+			return func(e *Exec, ov *OpaqueVal, args []Value) Value {
+				key := ov.data.(*Term)
+				dst, nonce, pt := e.bytesTerm(args[0]), e.bytesTerm(args[1]), e.bytesTerm(args[2])
+				e.check("panic", e.panicID("crypto/cipher: incorrect nonce length given to GCM"), "crypto/cipher: incorrect nonce length given to GCM", mkEq(mkLen(nonce), mkInt(12)))
+				enc := mkUF("Enc", SStr, key, nonce, pt)
+				k := "sealed:" + key.String()
+				lst, _ := e.hidden[k].([]*Term)
+				e.hidden[k] = append(lst, enc)
+				return &BytesVal{s: mkConcat(dst, enc)}
+			}
+		case "Open":
+			return func(e *Exec, ov *OpaqueVal, args []Value) Value {
+				key := ov.data.(*Term)
+				nonce, ct := e.bytesTerm(args[1]), e.bytesTerm(args[2])
+				e.check("panic", e.panicID("crypto/cipher: incorrect nonce length given to GCM"), "crypto/cipher: incorrect nonce length given to GCM", mkEq(mkLen(nonce), mkInt(12)))
+				if ct.op == "uf:Enc" && sameTerm(ct.args[0], key) && sameTerm(ct.args[1], nonce) {
+					return tuple(&BytesVal{s: ct.args[2]}, nilIface)
+				}
+				// authentic iff it is a Seal output under this key and nonce (ideal AEAD:
+				// only what the proxy sealed on this path)
+				sealed, _ := e.hidden["sealed:"+key.String()].([]*Term)
+				for _, enc := range sealed {
+					if e.branch(mkAnd(mkEq(ct, enc), mkEq(nonce, enc.args[1]))) {
+						return tuple(&BytesVal{s: enc.args[2]}, nilIface)
+					}
+				}
+				return tuple(&SliceVal{isNil: true}, e.newError("cipher: message authentication failed"))
+			}
+		}
+	case "stream":
+		if name == "XORKeyStream" {
+			return func(e *Exec, ov *OpaqueVal, args []Value) Value {
+				d := ov.data.([]*Term)
+				src := e.bytesTerm(args[1])
+				dst, ok := args[0].(*SliceVal)
+				if !ok {
+					e.unsupported("XORKeyStream into %T", args[0])
+				}
+				n := e.concretize(mkLen(src), "XORKeyStream length")
+				if int64(dst.n) < n {
+					e.panicHere("crypto/cipher: output smaller than input")
+				}
+				out := mkUF("CFB_"+d[0].sval, SStr, d[1], d[2], src)
+				for k := int64(0); k < n; k++ {
+					e.store(&Pointer{obj: dst.arr, path: []int{dst.off + int(k)}}, e.byteFromCode(mkToCode(mkAt(out, mkInt(k)))))
+				}
+				return nil
+			}
+		}
 	}
 	return nil
 }
